@@ -842,11 +842,52 @@ func ruleC13R3(w *World, r *Report) {
 	}
 	// non-eof side: every path to a return passes an advancing call
 	leak := false
+	// second chance for a return that the structural reading cannot vouch for (a reader that says through its result
+	// whether it consumed anything: `if l.consumeStringLike(noPanic) { return }`): the deep LEXBOUNDS run of C13/R6 —
+	// everything inlined from nextToken — judges every return of consumeToken in every context
+	deepDone, deepOK := false, false
+	deep := func() bool {
+		if deepDone {
+			return deepOK
+		}
+		deepDone = true
+		nt := w.fn(w.Mem, "(*Lexer).nextToken")
+		if nt == nil {
+			return false
+		}
+		e := w.newLexBounds()
+		e.bytes, e.tokProg = true, true
+		joinByteRefute = true
+		defer func() { joinByteRefute = false }()
+		e.runRoot(nt, map[string]bool{"noPanic": false})
+		e.runRoot(nt, map[string]bool{"noPanic": true})
+		n := 0
+		deepOK = true
+		for _, ob := range e.results() {
+			if ob.rule != "C13/R6" || !strings.HasPrefix(ob.construct, "(*Lexer).consumeToken:") {
+				continue
+			}
+			n++
+			if ob.failed > 0 || ob.total == 0 {
+				deepOK = false
+				if os.Getenv("VERIF_C13_DEBUG") != "" {
+					fmt.Printf("C13DEBUG deep %s: %d of %d failed %v\n", ob.construct, ob.failed, ob.total, ob.details)
+				}
+			}
+		}
+		if n == 0 || len(e.notes) > 0 {
+			deepOK = false
+		}
+		return deepOK
+	}
 	for _, rb := range fn.Blocks {
 		if _, isRet := rb.Instrs[len(rb.Instrs)-1].(*ssa.Return); !isRet || rb == b0.Succs[0] {
 			continue
 		}
 		if w.pathAvoiding(b0.Succs[1], rb, w.isMustAdvancingCall) {
+			if deep() {
+				continue
+			}
 			leak = true
 			detail := "a path from the non-eof side reaches this return without advancing the cursor: an empty token"
 			// name the token reader that can return without advancing
@@ -866,7 +907,11 @@ func ruleC13R3(w *World, r *Report) {
 		}
 	}
 	if !leak {
-		r.ok(rule, "consumeToken progress", w.pos(fn.Pos()), "every non-eof return path passes skip/skipN (directly or in a token reader)")
+		how := "every non-eof return path passes skip/skipN (directly or in a token reader)"
+		if deepDone && deepOK {
+			how = "every return of consumeToken has moved the cursor by at least one byte or is at the end of the input, in every context of the deep LEXBOUNDS run (a reader reports through its result whether it consumed anything)"
+		}
+		r.ok(rule, "consumeToken progress", w.pos(fn.Pos()), how)
 	}
 }
 
